@@ -344,6 +344,7 @@ def run(ctx):
             "names1": ({"TreeSet": "<- TreesNames", "Ops": "<- OpsAll", "MaxLen": 1, "Prots": "<- AllProts"}, ctx.pick(20, 120)),
             "tiny3": ({"TreeSet": "<- TreesTiny", "Ops": "<- OpsAll", "MaxLen": 3, "Prots": D}, ctx.pick(25, 200)),
             "mid2": ({"TreeSet": "<- TreesMid", "Ops": "<- OpsAll", "MaxLen": 2, "Prots": "<- ProtsQuick"}, ctx.pick(25, 200)),
+            "gl3": ({"TreeSet": "<- TreesGl", "Ops": "<- OpsAll", "MaxLen": 3, "Prots": D}, 200),
             "core2": ({"TreeSet": "<- TreesCore", "Ops": "<- OpsAll", "MaxLen": 2, "Prots": D}, 300),
             "small3": ({"TreeSet": "<- TreesSmall", "Ops": "<- OpsAll", "MaxLen": 3, "Prots": D}, 300),
             "full2": ({"TreeSet": "<- TreesFull", "Ops": "<- OpsNoClone", "MaxLen": 2, "Prots": D}, 400),
